@@ -181,6 +181,28 @@ Theorem C14_command_name_typed_last :
 Proof. exact cmd_name_last. Qed.
 Print Assumptions C14_command_name_typed_last.
 
+(* names that belong only to commands not entered are never offered: a subcommand whose name is not the next item
+   contributes its own name as a hint and nothing else *)
+Theorem C14_command_not_entered_offers_its_name_only :
+  forall docgen name aliases shorts help adjacent m i run s k s1,
+    take_cmd_any ((name :: aliases) ++ map utf8_encode_char shorts) s = (false, s1) ->
+    snd (snd (c_cmd_body docgen name aliases shorts help adjacent m i run (s, k))) =
+    kpush (CoCommand (mkExtra (depth s1) None (help_completion docgen help)) (chars_of name) (hd_error shorts)) k.
+Proof. exact cmd_not_entered. Qed.
+Print Assumptions C14_command_not_entered_offers_its_name_only.
+
+(* group_help: earlier hints stay, the inner parser's hints follow under the group's title *)
+Theorem C14_group_title_on_inner_hints :
+  forall docgen cev d s c r s' c',
+    cev (s, Some (mkCst [] (cs_rev c) (cs_nopos c))) = (r, (s', Some c')) ->
+    c_group_help_body docgen cev d (s, Some c) =
+    (r, (s', Some (mkCst (cs_comps c ++ match to_completion docgen d with
+                                        | Some g => map (set_group g) (cs_comps c')
+                                        | None => cs_comps c'
+                                        end) (cs_rev c') (cs_nopos c')))).
+Proof. exact group_help_titles. Qed.
+Print Assumptions C14_group_title_on_inner_hints.
+
 (* without a request the completers and the bookkeeping change nothing (see C20) *)
 Theorem C14_no_request_no_completion :
   forall feat env o name argv,
